@@ -24,6 +24,7 @@ Inductive write : Type :=
 | PtrLoopBounded (B : Z)      (* while (p - buf < B && ..) *p++ = c;  *p = 0 *)
 | PtrLoopUnbounded            (* *q++ = *p for every input character, no bound *)
 | CopyGuarded (G X : Z)       (* if (len > G) throw; one byte per character, then X more bytes *)
+| IndexLoopBounded (B X : Z)  (* for (i = 0; i < n && i < B; i++) buf[i] = ..; then X more bytes *)
 | IndexLoopUnbounded (X : Z)  (* for (i = 0; i < n; i++) buf[i] = ..; then X more bytes; nothing bounds n *)
 | Unrecognised.               (* the scanner could not classify a statement naming the buffer *)
 
@@ -47,6 +48,7 @@ Definition extent (w : write) (n : Z) : Z :=
   | PtrLoopBounded B => Z.min n B + 1
   | PtrLoopUnbounded => n + 1
   | CopyGuarded G X => if n <=? G then n + X else 0
+  | IndexLoopBounded B X => Z.min n B + X
   | IndexLoopUnbounded X => n + X
   | Unrecognised => n + 1
   end.
@@ -66,6 +68,7 @@ Definition write_ok (cap : Z) (w : write) : bool :=
   | WriteExactly K => (0 <=? K) && (K <=? cap)
   | PtrLoopBounded B => (0 <=? B) && (B + 1 <=? cap)
   | CopyGuarded G X => (0 <=? G) && (G + X <=? cap) && (0 <=? cap)
+  | IndexLoopBounded B X => (0 <=? B) && (B + X <=? cap)
   | StrcpyUnguarded | StrncpyUnguarded | PtrLoopUnbounded | IndexLoopUnbounded _ | Unrecognised => false
   end.
 
@@ -85,6 +88,7 @@ Definition outcome_of (cap : Z) (w : write) (delimited : bool) (n : Z) : outcome
        | Getline M => if n <=? M - 1 then Complete else Rejected   (* read_line: "Line exceeds" *)
        | StrcpyLine M => if n <=? M - 1 then Complete else Rejected
        | PtrLoopBounded B => if n <=? B then Complete else Cut
+       | IndexLoopBounded B _ => if n <=? B then Complete else Cut
        | WriteAtMost M => if n <=? M then Complete else Cut
        | _ => Complete
        end.
